@@ -7,6 +7,8 @@ import pandas as pd
 from .util import check_data_inputs_aligned, _convert_timestamp_to_tz_unaware
 
 
+NOT_SEEN = np.iinfo(np.int64).min
+
 _COMMON_VALUE_TYPES = [
     nb.types.Array(dtype, 1, "A", readonly=readonly)
     for dtype in [nb.types.float32, nb.types.int32, nb.types.float64, nb.types.int64]
@@ -432,7 +434,8 @@ def _ema_grouped_timed(
     out = np.zeros_like(values, dtype="float64")
     residuals = np.zeros(ngroups, dtype="float64")
     residual_weights = np.zeros(ngroups, dtype="float64")
-    last_seen_times = np.zeros(ngroups, dtype="int64")
+    # sentinel for "group not seen yet" (0 or a positivity test would break 1970 / earlier dates)
+    last_seen_times = np.full(ngroups, NOT_SEEN, dtype="int64")
     last_seen = np.full(ngroups, np.nan, dtype="float64")
 
     masked = mask is not None
@@ -442,7 +445,7 @@ def _ema_grouped_timed(
             # null key: the row belongs to no group (index -1 would be the last group)
             out[i] = np.nan
             continue
-        if last_seen_times[k] > 0:
+        if last_seen_times[k] != NOT_SEEN:
             hl = (times[i] - last_seen_times[k]) / halflife
             beta = np.exp(-np.log(2) * hl)
             residuals[k] *= beta
